@@ -4,6 +4,7 @@ import (
 	"context"
 	"fmt"
 	"testing"
+	"time"
 
 	"github.com/ipfs/go-cid"
 	coreiface "github.com/ipfs/kubo/core/coreiface"
@@ -29,18 +30,33 @@ type loadSpec struct {
 }
 
 // doLoad runs one loader against api. start: for "entries" the supplied entries, for "hash" the entry hash.
-func doLoad(ctx context.Context, api coreiface.CoreAPI, w *sim.World, loader string, manifest cid.Cid, jsonLog *iface.JSONLog, entries []iface.IPFSLogEntry, hash cid.Cid, length *int, conc int, exclude iface.ExcludeFunc, timeout int) (*ipfslog.IPFSLog, error) {
+// loadExtra are optional fetch options that must not change the outcome of a load.
+type loadExtra struct {
+	Known   []iface.IPFSLogEntry // entries the caller says it already has (FetchOptions.Exclude)
+	Timeout time.Duration        // a generous timeout
+	SortFn  bool                 // pass the log's ordering as FetchOptions.SortFn (manifest loader)
+}
+
+func doLoad(ctx context.Context, api coreiface.CoreAPI, w *sim.World, loader string, manifest cid.Cid, jsonLog *iface.JSONLog, entries []iface.IPFSLogEntry, hash cid.Cid, length *int, conc int, exclude iface.ExcludeFunc, timeout int, extra ...loadExtra) (*ipfslog.IPFSLog, error) {
 	lo := &ipfslog.LogOptions{ID: sim.LogID, SortFn: world.SortFn(w.Order), IO: w.IO}
 	id := world.Identity(7)
+	var x loadExtra
+	if len(extra) > 0 {
+		x = extra[0]
+	}
+	var fsort iface.EntrySortFn
+	if x.SortFn {
+		fsort = world.SortFn(w.Order)
+	}
 	switch loader {
 	case "manifest":
-		return ipfslog.NewFromMultihash(ctx, api, id, manifest, lo, &ipfslog.FetchOptions{Length: length, Concurrency: conc, ShouldExclude: exclude})
+		return ipfslog.NewFromMultihash(ctx, api, id, manifest, lo, &ipfslog.FetchOptions{Length: length, Concurrency: conc, ShouldExclude: exclude, Exclude: x.Known, Timeout: x.Timeout, SortFn: fsort})
 	case "json":
-		return ipfslog.NewFromJSON(ctx, api, id, jsonLog, lo, &iface.FetchOptions{Length: length, Concurrency: conc})
+		return ipfslog.NewFromJSON(ctx, api, id, jsonLog, lo, &iface.FetchOptions{Length: length, Concurrency: conc, Timeout: x.Timeout})
 	case "entries":
-		return ipfslog.NewFromEntry(ctx, api, id, entries, lo, &iface.FetchOptions{Length: length, Concurrency: conc})
+		return ipfslog.NewFromEntry(ctx, api, id, entries, lo, &iface.FetchOptions{Length: length, Concurrency: conc, Exclude: x.Known, Timeout: x.Timeout})
 	case "hash":
-		return ipfslog.NewFromEntryHash(ctx, api, id, hash, lo, &ipfslog.FetchOptions{Length: length, Concurrency: conc, ShouldExclude: exclude})
+		return ipfslog.NewFromEntryHash(ctx, api, id, hash, lo, &ipfslog.FetchOptions{Length: length, Concurrency: conc, ShouldExclude: exclude, Exclude: x.Known, Timeout: x.Timeout})
 	}
 	return nil, fmt.Errorf("harness: unknown loader %s", loader)
 }
